@@ -129,6 +129,22 @@ class Runner:
         nmodel = [0]
         KCODE = {'A': 0, 'FA': 1, 'V': 2, 'FV': 3}
 
+        nmat = [0]
+
+        def tmp_mat(mobj):
+            """a matrix that exists only inside an operation (Matrix.from_angle(other), the matrix of transform()):
+            the model gets its entries as observed"""
+            sn = list(self.snap(mobj, 'M'))
+            mops.append(['mctor', False, sn]); expect.append(['m', nmat[0], [False, sn]])
+            nmat[0] += 1
+            return nmat[0] - 1
+
+        def mat_operand(rec):
+            """model id of the matrix an Angle/Matrix operand stands for"""
+            if rec['kind'] in ('M', 'FM'):
+                return rec['mmid']
+            return tmp_mat(m.Matrix.from_angle(rec['obj']))
+
         def add(step, obj, mid_ops=None, src=None):
             """register a result object; mid_ops: list of model ops creating it (last one yields it)"""
             k = self.kind(obj)
@@ -138,7 +154,16 @@ class Runner:
                 if r['obj'] is obj:      # an alias (frozen copy, FrozenX(frozen))
                     env[step['id']] = r
                     return r
-            rec = {'obj': obj, 'kind': k, 'snap': self.snap(obj, k), 'mid': None, 'hash': None, 'born': step['id']}
+            rec = {'obj': obj, 'kind': k, 'snap': self.snap(obj, k), 'mid': None, 'mmid': None, 'hash': None, 'born': step['id']}
+            if k in ('M', 'FM'):
+                ops = mid_ops if mid_ops is not None else [['mctor', k == 'FM', list(rec['snap'])]]
+                for op in ops[:-1]:
+                    mops.append(op); expect.append(None)
+                mops.append(ops[-1]); expect.append(['m', nmat[0], [k == 'FM', list(rec['snap'])]])
+                rec['mmid'] = nmat[0]; nmat[0] += 1
+                env[step['id']] = rec
+                order.append(rec)
+                return rec
             if k in ('FA', 'FV'):
                 try:
                     rec['hash'] = hash(obj)
@@ -163,6 +188,11 @@ class Runner:
         def mutated(rec, ops):
             """in-place change of rec: model ops (last one observes the object)"""
             rec['snap'] = self.snap(rec['obj'], rec['kind'])
+            if rec['kind'] == 'M' and ops is not None:
+                for op in ops[:-1]:
+                    mops.append(op); expect.append(None)
+                mops.append(ops[-1]); expect.append(['m', rec['mmid'], [False, list(rec['snap'])]])
+                return
             if rec['mid'] is None or ops is None:
                 return
             for op in ops[:-1]:
@@ -362,6 +392,8 @@ class Runner:
                         o = cls(r['obj'])
                         if not (fr and r['kind'] == 'FM'):
                             self._eq_check(wit, step, r, o, 'Matrix(matrix)')
+                            add(step, o, [['mcopy', fr, r['mmid']]])
+                            continue
                     else: continue
                     add(step, o)
                 elif op == 'mset':
@@ -369,16 +401,22 @@ class Runner:
                     if r is None: continue
                     target = r
                     r['obj'][step['r'], step['c']] = fl(step['v'])
-                    mutated(r, None)
+                    mutated(r, [['mset', r['mmid'], step['r'], step['c'], step['v']]])
                 elif op == 'munary':
                     r = get(step, 'src', ('M', 'FM'))
                     if r is None: continue
                     f = step['f']
-                    if f == 'transpose': o = r['obj'].transpose()
-                    elif f == 'inverse': o = r['obj'].inverse()
-                    elif f in ('forward', 'left', 'up'): o = getattr(r['obj'], f)(fl(step.get('v', bits(1.0))))
+                    if f == 'transpose':
+                        o = r['obj'].transpose()
+                        add(step, o, [['mtranspose', r['mmid']]])
+                    elif f == 'inverse':
+                        o = r['obj'].inverse()
+                        add(step, o)
+                    elif f in ('forward', 'left', 'up'):
+                        mag = step.get('v', bits(1.0))
+                        o = getattr(r['obj'], f)(fl(mag))
+                        add(step, o, [['mrow', r['mmid'], ('forward', 'left', 'up').index(f), mag]])
                     else: continue
-                    add(step, o)
                 # ---------------------------------------------------------------- rotation
                 elif op == 'matmul':      # left @ right -> new object
                     a = get(step, 'a'); b = get(step, 'b', ('A', 'FA', 'M', 'FM'))
@@ -395,6 +433,14 @@ class Runner:
                     k = self.kind(o)
                     if k in ('A', 'FA'):
                         add(step, o, [to_angle_op(None, k == 'FA', proxy.log)])
+                    elif step.get('tuple') or a is None:
+                        add(step, o)
+                    elif k in ('V', 'FV') and a['kind'] in ('V', 'FV'):
+                        mm = mat_operand(b)
+                        add(step, o, [['vrot', a['mid'], mm, False]])
+                    elif k in ('M', 'FM') and a['kind'] in ('M', 'FM'):
+                        mm = mat_operand(b)
+                        add(step, o, [['mmul', a['mmid'], mm, False]])
                     else:
                         add(step, o)
                 elif op == 'imatmul':     # left @= right
@@ -406,12 +452,23 @@ class Runner:
                         if a['kind'] in ('FA', 'FV', 'FM'):
                             wit.append(('frozen-mutated', f'{a["kind"]} @= x returned the same object', step['id']))
                         if a['kind'] == 'A': mutated(a, [to_angle_op(a['mid'], False, proxy.log)])
-                        elif a['kind'] == 'V': mutated(a, vset_ops(a))
+                        elif a['kind'] == 'V':
+                            mm = mat_operand(b)
+                            mutated(a, [['vrot', a['mid'], mm, True]])
+                        elif a['kind'] == 'M':
+                            mm = mat_operand(b)
+                            mutated(a, [['mmul', a['mmid'], mm, True]])
                         else: mutated(a, None)
                     else:
                         k = self.kind(o2)
                         if k in ('A', 'FA'):
                             add(step, o2, [to_angle_op(None, k == 'FA', proxy.log)])
+                        elif k in ('V', 'FV') and a['kind'] in ('V', 'FV'):
+                            mm = mat_operand(b)
+                            add(step, o2, [['vrot', a['mid'], mm, False]])
+                        elif k in ('M', 'FM') and a['kind'] in ('M', 'FM'):
+                            mm = mat_operand(b)
+                            add(step, o2, [['mmul', a['mmid'], mm, False]])
                         else:
                             add(step, o2)
                 elif op == 'to_angle':
@@ -448,7 +505,9 @@ class Runner:
                         if step.get('yaw') is not None:
                             mat @= m.Matrix.from_yaw(fl(step['yaw']))
                     if a['kind'] == 'A': mutated(a, [['transform', a['mid'], [bits(x) for x in proxy.log]]])
-                    else: mutated(a, vset_ops(a))
+                    else:
+                        mm = tmp_mat(mat)
+                        mutated(a, [['vrot', a['mid'], mm, True]])
                 elif op == 'localise':
                     a = get(step, 'tgt', ('V',)); o_ = get(step, 'b', ('V', 'FV')); r = get(step, 'c', ('A', 'FA', 'M', 'FM'))
                     if a is None or o_ is None: continue
@@ -477,11 +536,11 @@ class Runner:
                     if how == 'freeze':
                         if k not in ('A', 'V', 'M'): continue
                         o = r['obj'].freeze()
-                        mo = [['freeze', r['mid']]] if k in ('A', 'V') else None
+                        mo = [['freeze', r['mid']]] if k in ('A', 'V') else [['mcopy', True, r['mmid']]]
                     elif how == 'thaw':
                         if k not in ('FA', 'FV', 'FM'): continue
                         o = r['obj'].thaw()
-                        mo = [['thaw', r['mid']]] if k in ('FA', 'FV') else None
+                        mo = [['thaw', r['mid']]] if k in ('FA', 'FV') else [['mcopy', False, r['mmid']]]
                     else:
                         if how == 'copy': o = r['obj'].copy()
                         elif how == 'copy.copy': o = _copy.copy(r['obj'])
@@ -504,6 +563,10 @@ class Runner:
                             mo = [['vctor', False] + s]
                         elif k == 'FV':
                             mo = [['vctor', True] + s] if how == 'pickle' else None
+                        elif k == 'M':
+                            mo = [['mcopy', False, r['mmid']]]
+                        elif k == 'FM':
+                            mo = [['mcopy', True, r['mmid']]] if how == 'pickle' else None
                         else:
                             mo = None
                         if k in ('FA', 'FV', 'FM') and how != 'pickle' and o is not r['obj']:
@@ -608,7 +671,8 @@ class Runner:
                                 wit.append((key, f'{type(rec["obj"]).__name__}.{name} == {x!r} after step {step["id"]} ({op})', step['id']))
                             rec['reported'] = True
         final = [(rec['mid'], KCODE[rec['kind']], list(rec['snap'])) for rec in order if rec['mid'] is not None]
-        return {'witnesses': wit, 'mops': mops, 'expect': expect, 'counts': counts, 'final': final,
+        mfinal = [(rec['mmid'], rec['kind'] == 'FM', list(rec['snap'])) for rec in order if rec['mmid'] is not None]
+        return {'witnesses': wit, 'mops': mops, 'expect': expect, 'counts': counts, 'final': final, 'mfinal': mfinal,
                 'nobj': len(order)}
 
     def _eq_check(self, wit, step, rec, o, how):
